@@ -122,8 +122,10 @@ func expected(initial []h2kit.Setting, frames []Frame) *model {
 		case "PP":
 			m.streams[f.S] = pushItem(m.streams[f.S], item{Kind: "PP", Fields: f.Fields, Promised: f.Promised, Continued: len(f.Cuts) > 0})
 		case "D":
-			m.streams[f.S] = pushItem(m.streams[f.S], item{Kind: "D", Data: kit.Bytes(f.Seed, f.N), End: f.End})
-			m.data[f.S] += f.N
+			for k := 0; k < f.times(); k++ {
+				m.streams[f.S] = pushItem(m.streams[f.S], item{Kind: "D", Data: kit.Bytes(f.Seed, f.N), End: f.End})
+				m.data[f.S] += f.N
+			}
 		case "R":
 			m.streams[f.S] = pushItem(m.streams[f.S], item{Kind: "R", Code: f.Code})
 		case "P":
@@ -260,7 +262,7 @@ func blockedShape(frames []Frame, w Win) bool {
 	for _, f := range frames {
 		switch f.T {
 		case "D":
-			cum[f.S] += f.N
+			cum[f.S] += f.N * f.times()
 		case "H", "PP":
 			if held && f.S != heldStream {
 				return true
@@ -277,7 +279,7 @@ func canBlock(frames []Frame, w Win) bool {
 	cum := map[uint32]int{}
 	for _, f := range frames {
 		if f.T == "D" {
-			cum[f.S] += f.N
+			cum[f.S] += f.N * f.times()
 			if cum[f.S] > room(w, f.S) {
 				return true
 			}
@@ -376,6 +378,9 @@ func classes(c Case) []string {
 		}
 		if f.Bare {
 			set["header-block-without-fields"] = true
+		}
+		if f.times() > 15 {
+			set["burst-of-data-frames"] = true
 		}
 	}
 	if (c.CMax > 16384) != (c.SMax > 16384) {
@@ -690,7 +695,9 @@ func (r *runner) play(ep, self *h2kit.Endpoint, dir string, frames []Frame, serv
 			n, err = ep.WritePushPromise(f.S, f.Promised, f.Fields, f.Pad, f.Cuts)
 			r.noteBlock(dir, f.S, n)
 		case "D":
-			_, err = ep.WriteData(f.S, kit.Bytes(f.Seed, f.N), f.Pad, f.End)
+			for k := 0; k < f.times() && err == nil; k++ {
+				_, err = ep.WriteData(f.S, kit.Bytes(f.Seed, f.N), f.Pad, f.End)
+			}
 		case "R":
 			err = ep.WriteRST(f.S, f.Code)
 		case "P":
